@@ -164,6 +164,7 @@ fn run_one(ctx: &RunCtx, max_len: usize) -> RunOut {
         }
         let kind = menu[c - 1];
         let before = table.clone();
+        let stored_before = stored.clone();
         let l0 = h.ex().w.lock().unwrap().log.len();
         *h.knobs() = hist::Knobs::default();
         let mut desc = format!("{kind:?}");
@@ -314,6 +315,32 @@ fn run_one(ctx: &RunCtx, max_len: usize) -> RunOut {
             }
         } else if !matches!(kind, Kind::CheckInstallWait) {
             fail.get_or_insert((format!("no policy call after a {kind:?} step"), format!("{steps:?}")));
+        }
+        // (3a) every commit of the step: a machine rebuilt on that snapshot sees the app data
+        // that belong to the contact time it sees - the data from before the step with the old
+        // time, the data after it with the new time ("committed together with the check's result")
+        if matches!(kind, Kind::Check | Kind::CheckInstallWait | Kind::PingOk) {
+            let n_before = log[..l0].iter().filter(|o| matches!(o, Obs::St { op: StOp::Commit, ok: true })).count();
+            let n_in = seg.iter().filter(|o| matches!(o, Obs::St { op: StOp::Commit, ok: true })).count();
+            let snaps = h.ex().w.lock().unwrap().store.history.clone();
+            let before_snap = if n_before == 0 { Default::default() } else { snaps[n_before - 1].clone() };
+            let t_before = hist::present_after_rebuild(&plain_setup, &before_snap).and_then(|x| x.0.last_update_time);
+            for c in 0..n_in {
+                if let Some((sched, _, apps)) = hist::present_after_rebuild(&plain_setup, &snaps[n_before + c]) {
+                    let new_time = sched.last_update_time != t_before;
+                    for a in &apps {
+                        let exp_new = &table[&a.id];
+                        let exp_old = &stored_before[&a.id];
+                        let exp = if new_time { exp_new } else { exp_old };
+                        if exp_new != exp_old && view_fields(a) != *exp {
+                            fail.get_or_insert((
+                                format!("a crash during a {kind:?} step leaves storage in which the contact time and the app's cohort/user-counting data belong to different commits"),
+                                format!("commit {} of the step: contact time is {}, app {} restored as {:?}, expected {:?}; steps {steps:?}", c + 1, if new_time { "new" } else { "old" }, a.id, view_fields(a), exp),
+                            ));
+                        }
+                    }
+                }
+            }
         }
         // (3) committed storage: a machine rebuilt with no presets restores exactly the table
         if !matches!(kind, Kind::Restart | Kind::EndWait) {
